@@ -18,6 +18,7 @@ import (
 	sl "github.com/google/osv-scalibr/extractor/standalone/list"
 	"github.com/google/osv-scalibr/plugin"
 	"verif/ev"
+	"verif/scankit"
 )
 
 // satisfies is written from the comments in plugin.go, not from ValidateRequirements.
@@ -442,6 +443,22 @@ func main() {
 			checkSet([]detector.Detector{detAll[j], detAll[i]}, detAll[j].Name()+"+"+detAll[i].Name())
 		}
 	}
+	// (6) a detector may require ANY registered extractor: for every registered filesystem and
+	// standalone extractor name, a harness detector requiring it (alone, and together with one
+	// filesystem name) must get exactly that extractor enabled, once
+	var allNames []string
+	for _, p := range fsAll {
+		allNames = append(allNames, p.Name())
+	}
+	for _, p := range stAll {
+		allNames = append(allNames, p.Name())
+	}
+	for _, n := range allNames {
+		checkSet([]detector.Detector{&scankit.Det{N: "harness-det", Required: []string{n}}}, "harness detector requiring "+n)
+		if len(fsAll) > 0 {
+			checkSet([]detector.Detector{&scankit.Det{N: "harness-det", Required: []string{fsAll[0].Name(), n}}, &scankit.Det{N: "harness-det-2", Required: []string{n}}}, "two harness detectors requiring "+n)
+		}
+	}
 	r.Assume("the requirement semantics are those written in the comments of plugin/plugin.go (OSUnix = Linux or Mac; Any = don't care)")
-	r.Finish("complete enumeration: 60x60 requirement/capability tuples on a fake plugin; 60 capability tuples x every plugin of el.All/sl.All/dl.All; every key and every ordered pair of keys of the filesystem name table, every key of the other two; every RequiredExtractors entry; EnableRequiredExtractors on every ordered pair of detectors and on the full detector set. distinct = (plugin,verdict,tuple) triples + unsatisfied predicate cells + keys", true)
+	r.Finish("complete enumeration: 60x60 requirement/capability tuples on a fake plugin; 60 capability tuples x every plugin of el.All/sl.All/dl.All; every key and every ordered pair of keys of the filesystem name table, every key of the other two; every RequiredExtractors entry; EnableRequiredExtractors on every ordered pair of detectors, on the full detector set, and for harness detectors requiring each registered filesystem and standalone extractor name. distinct = (plugin,verdict,tuple) triples + unsatisfied predicate cells + keys", true)
 }
